@@ -171,7 +171,7 @@ def _write_evidence(prop, tier, level, coverage, wall, violations, assumptions):
     ev = {"property_id": prop, "tier": tier, "seed": int(os.environ.get("VERIF_SEED", "0") or 0),
           "level": level, "coverage": coverage, "assumptions": assumptions, "wall_s": round(wall, 2),
           "violations": violations}
-    tmp = os.path.join(EVIDENCE_DIR, prop + ".json.tmp")
+    tmp = os.path.join(EVIDENCE_DIR, "%s.json.tmp%d" % (prop, os.getpid()))     # two tiers of one property may run at once
     json.dump(ev, open(tmp, "w"), indent=1, sort_keys=False)
     os.replace(tmp, os.path.join(EVIDENCE_DIR, prop + ".json"))
 
@@ -219,7 +219,10 @@ def run_property(prop, module, tier, replay=None):
     os.makedirs(REPORT_DIR, exist_ok=True)
     for f in os.listdir(REPORT_DIR):
         if f.startswith(prop + "-"):
-            os.unlink(os.path.join(REPORT_DIR, f))
+            try:
+                os.unlink(os.path.join(REPORT_DIR, f))
+            except OSError:
+                pass
     fails = [o for o in ctx.obs if not o.ok]
     nviol = 0
     nknown = 0
